@@ -99,3 +99,12 @@ func init() {
 			{Name: "threads", Run: "^TestThreads$", Checks: [2]int{60, 1200}, Shards: [2]int{8, 16}, Race: true, Env: []string{"GORACE=halt_on_error=1"}},
 		}})
 }
+
+func init() {
+	reg(PropCfg{ID: "C03", Pkg: "c03", Level: "exploration",
+		Rule: "rule x context table: 51 statement-level rules (operand/argument/assignment/condition/branch/iterator mismatches, arity, unknown identifier/type/member, break/continue outside loops, implicit any, ...) each instantiated as a well-typed snippet and its single-fault ill-typed twin inside 15 syntactic contexts (function body, nested block, if/else, loops, lambda body, lambda in loop, match arms, try/catch, after a closure literal, value block) plus 41 whole-program rules (return types, duplicates, non-constant global, main shape, singletons, triggers, impl blocks vs template, imports): the good twin must get no error-level diagnostic, the bad twin at least one; random accept direction: generated well-typed programs must be accepted and the analyzer's recorded type of every top-level let equals the generator's type; non-trivial = every ill-typed twin (differs from an accepted base at exactly one site) and generated programs with >= 3 type kinds; distinct by (rule, context) / program text",
+		Jobs: []Job{
+			{Name: "rules", Run: "^TestTableRules$", Shards: [2]int{4, 8}},
+			{Name: "accept", Run: "^TestAcceptGenerated$", Checks: [2]int{1500, 20000}, Shards: [2]int{4, 16}},
+		}})
+}
